@@ -46,7 +46,7 @@ FLOORS = {
     'bin:mixed-sign': (0.15, 'bin:pair'), 'bin:mixed-type': (0.30, 'bin:pair'), 'bin:exact-quotient': (0.08, 'bin:pair'),
     'bin:zero-divisor': (0.02, 'bin:pair'), 'bin:nonfinite': (0.03, 'bin:pair'),
     'un:tie': (0.05, 'un:arg'), 'un:negative': (0.25, 'un:arg'), 'bin:fp-underflow-negative': (0.004, 'bin:pair'),
-    'bin:subint-operand': (0.08, 'bin:pair'), 'un:subint-operand': (0.05, 'un:arg'), 'un:huge-with-fraction': (0.03, 'un:arg'),
+    'bin:subint-operand': (0.08, 'bin:pair'), 'bin:float-result-outside-binary32-range': (0.01, 'bin:pair'), 'un:subint-operand': (0.05, 'un:arg'), 'un:huge-with-fraction': (0.03, 'un:arg'),
 }
 
 BIN_OPS = ('+', '-', '*', 'div', 'idiv', 'mod')
@@ -184,7 +184,11 @@ def _compare(exp: N.Exp, obs, prefix: str, suffix: str, value_only: bool, discs:
     e_fl, o_fl = isinstance(ev, float), isinstance(ov, float)
     if e_fl == o_fl:
         ok = exp.accepts_value(ov)
-        if not ok and as_double is not None and not as_double.is_error and \
+        # the recorded defect is about PRECISION inside the binary32 range: an xs:float result that lies outside
+        # the range (finite but rounding to INF, or non-zero but rounding to zero) is never excused by it
+        in_range = not o_fl or ot != 'float' or math.isnan(ov) or math.isinf(ov) or ov == 0 or \
+            (not math.isinf(N.f32(ov)) and N.f32(ov) != 0)
+        if not ok and in_range and as_double is not None and not as_double.is_error and \
                 ((o_fl and ot == 'float' and exp.accepts_value(N.f32(ov))) or
                  (ot == exp.type and as_double.accepts_value(ov))):
             # xs:float carried in double precision: right after rounding to binary32, or equal to the same
@@ -260,10 +264,11 @@ def judge_binary(case, rec: Recorder | None = None) -> list[Disc]:
     ops = case.get('ops') or (BIN_OPS_10 if x1 else BIN_OPS)
     negzero = (_dec_negzero(a) and not sa.startswith('(')) or (_dec_negzero(b) and not sb.startswith('('))
     pre = 'C06/xp1/' if x1 else 'C06/'
-    underflow = False
+    underflow = f32_range = False
     for op in ops:
         exp = N.binop(op, ra, rb)
         underflow = underflow or 'underflow' in exp.note
+        f32_range = f32_range or (exp.type == 'float' and ('underflow' in exp.note or 'overflow' in exp.note))
         expr = f'{sa} {op} {sb}'
         obs = observe(mode, expr, variables, allvar)
         cls = _bin_class(op, px, py)
@@ -308,7 +313,7 @@ def judge_binary(case, rec: Recorder | None = None) -> list[Disc]:
         classes = ['bin:pair', f'bin:mode-{mode}', f'bin:form-{form}', f'bin:types-{types}']
         for flag, name in ((mixed_sign, 'mixed-sign'), (mixed_type, 'mixed-type'), (zero_div, 'zero-divisor'),
                            (nonfin, 'nonfinite'), (exact_q, 'exact-quotient'), (ident, 'identity-evaluated'),
-                           (exact_q and mixed_sign, 'exact-negative-quotient'), (underflow, 'fp-underflow'),
+                           (exact_q and mixed_sign, 'exact-negative-quotient'), (underflow, 'fp-underflow'), (f32_range, 'float-result-outside-binary32-range'),
                            (underflow and mixed_sign, 'fp-underflow-negative'),
                            (a[0] in A.INT_SUBTYPES or b[0] in A.INT_SUBTYPES, 'subint-operand')):
             if flag:
